@@ -286,7 +286,7 @@ func (tb *ieTables) getterOK(l, m string) bool {
 }
 
 func isValueAccessor(m string) bool {
-	return (strings.HasPrefix(m, "Get") || strings.HasPrefix(m, "Set")) && strings.HasSuffix(m, "Value") && m != "IsValueEmpty" && m != "ResetValue"
+	return (strings.HasPrefix(m, "Get") || strings.HasPrefix(m, "Set")) && strings.HasSuffix(m, "Value") && m != "IsValueEmpty" && m != "ResetValue" && m != "GetInfoElementWithValue"
 }
 
 // checkIESwitch applies R-SWITCH (every supported type has an explicit case) and R-GETTER (the typed accessor used in
